@@ -957,7 +957,7 @@ def _flat(func):
 
 
 def edit_kind(cfunc, rfunc):
-    """'identical' | 'first-order' (at most ONE new or changed statement, any number deleted) | 'rewritten' ; with (deleted, inserted, replaced)"""
+    """'identical' | 'first-order' (statements deleted only, or exactly one statement replaced and nothing else) | 'rewritten' ; with (deleted, inserted, replaced)"""
     a, b = _flat(rfunc), _flat(cfunc)
     if a == b and ast.dump(cfunc.args) == ast.dump(rfunc.args) and [ast.dump(d) for d in cfunc.decorator_list] == [ast.dump(d) for d in rfunc.decorator_list]:
         return "identical", (0, 0, 0)
@@ -972,7 +972,7 @@ def edit_kind(cfunc, rfunc):
             rep += k
             dele += (i2 - i1) - k
             ins += (j2 - j1) - k
-    if ins + rep <= 1:
+    if ins == 0 and (rep == 0 or (rep == 1 and dele == 0)):
         return "first-order", (dele, ins, rep)
     return "rewritten", (dele, ins, rep)
 
